@@ -215,7 +215,11 @@ def runStmt (env : Env) (k : Nat) (st : String) : StepRes :=
           match V.ofText rhs with
           | some v => bind (.ok [v]) env
           | none => .fail s!"unmodelled-func {name}"
-      | _ => .fail "stmt"
+      | _ =>
+        -- a plain literal (bytes `x…`, a number): a caller-owned value that later statements pass on by `$name`
+        match V.ofText rhs with
+        | some v => bind (.ok [v]) env
+        | none => .fail "stmt"
 
 def runProg (src : String) : String :=
   let stmts := (src.splitOn ";").filter (· ≠ "")
